@@ -9,7 +9,7 @@ from jaxtyping import Float, jaxtyped
 import jaxtyping._storage as ST
 from typing import Union
 A = np.ndarray
-out = {"reproduced": None, "model_concrete": True}
+out = {"reproduced": None, "model_concrete": False}  # canned scenarios: not derived from the counter-model
 def depth():
     return len(getattr(ST._shape_storage, "memo_stack", []))
 try:
